@@ -26,6 +26,9 @@
 (*               (signed decimals, or an infinity), loin/hiin whether the  *)
 (*               end points round to it (ties to even); wlo..whi: the      *)
 (*               same widened to one ulp per sexagesimal term.             *)
+(*   emit records (see EmitDenotes) carry ntag, the short tag of the node,  *)
+(*   and ctx, the situation (style, flow, pos) - H does not look at ctx:    *)
+(*   the meaning of a written scalar does not depend on where it stands.   *)
 (* One TLC run judges a whole batch: one initial state per trace.          *)
 (***************************************************************************)
 EXTENDS Naturals, Integers, Sequences, FiniteSets, TLC, Json, IOUtils, Decimal
@@ -83,8 +86,16 @@ ValueIs(kind, hv, ot, ov) ==
 
 \* The statement speaks about untagged scalars.  A scalar the dumper wrote with an explicit tag is outside the
 \* repository's rules; it is held to the read-back clause only: rb = loading the emitted document gave the value back.
+\* kind "emit": a scalar NODE (ntag, text) - a number, bool, null, timestamp spelled by the rules of its type, or a str -
+\* was serialized in some situation (style asked for, block / flow, position); text / plain / tag are what was written.
+\* The written form reads back with the type of the node: an explicit tag says it, otherwise the repository's rules do.
+EmitDenotes(t) ==
+  LET cls == IF t.tag # "" THEN t.tag ELSE H!ClassifyStyled(t.text, t.plain)
+  IN  IF cls = t.ntag THEN "" ELSE "reads back as another type"
+
 Denotes(t) ==
-  IF t.ot = "exception" THEN "non-YAML exception"
+  IF t.kind = "emit" THEN EmitDenotes(t)
+  ELSE IF t.ot = "exception" THEN "non-YAML exception"
   ELSE IF t.tag # "" THEN (IF t.rb THEN "" ELSE "tagged, no read-back")
   ELSE LET cls == H!ClassifyStyled(t.text, t.plain)
            hv  == H!ValueAs(cls, t.text)
